@@ -215,6 +215,14 @@ def check(fx, rep, tier):
                                               i.msg if i.ok else i.msg + ' - every extra receive rewrites the buffer that already yielded items still borrow from', i.detail)
         if not n4:
             rep.bad('R11.4', 'anchor', '-', 'reply-stream bookkeeping instances not found')
+        # R11.5: items of one batch stay valid only because the read loop completes the whole batch (reads until the last received byte is a
+        # terminator) before the first item is handed out, and reads again only when every buffered frame was handed out: a loop that returns
+        # at the first complete frame appends to - and may reallocate - the buffer on the next receive while earlier items are alive
+        import imports as _imp
+        rep.rule('R11.5', 'while such an escape exists: the read loop of C01 reads the transport only when no frame is buffered and returns only when the received bytes end with a '
+                          'terminator (R01.2), with the sentinel / cursor-reset pairing that tells "no more buffered frames" (R01.3, R01.6)')
+        _imp.rules_of(fx, rep, 'C01', {'R01.2', 'R01.3', 'R01.6'}, 'R11.5', 'a receive that touches the transport while frames of the previous read are still buffered writes (and may grow, '
+                      'i.e. reallocate) the buffer that items already handed out still borrow from')
     rep.note('laundering sites enumerated: %s' % sorted({s.key() for s in all_sites}))
     rep.floor('R11.1', 1, 'laundering sites')
     return META
